@@ -170,7 +170,7 @@ def occupy(rng, steps, made, pool, share=0.35):
 
 MALFORMED = ['nonsuffix', 'empty', 'truncated', 'binary', 'nonutf8', 'nopath', 'nodate', 'baddate',
              'nopayload', 'orphan', 'dir_in_info', 'infodir_named_trashinfo', 'only_header', 'crlf', 'offsetdate', 'pctnonutf8', 'pctcontrol',
-             'info_dangling_link', 'info_loop_link', 'info_link_to_dir', 'stray_dangling_link', 'orphan_longname', 'nopayload_longname', 'info_named_by_dots', 'farfuture_nopath']
+             'info_dangling_link', 'info_loop_link', 'info_link_to_dir', 'stray_dangling_link', 'orphan_longname', 'nopayload_longname', 'info_named_by_dots', 'farfuture_nopath', 'equals_lines']
 
 
 def add_malformed(rng, steps, tdir, kind, tag, path_value=None):
@@ -258,6 +258,14 @@ def add_malformed(rng, steps, tdir, kind, tag, path_value=None):
         # files/. or the trash directory
         steps.append(['f', tdir + '/info/' + rng.choice(['', '.', '..']) + '.trashinfo',
                       '[Trash Info]\nPath=%s\nDeletionDate=2001-01-01T00:00:00\n' % (path_value or '/home/u/w/' + nm), 0o600])
+    elif kind == 'equals_lines':
+        # lines that are not 'key=value' with one '=': foreign keys whose value holds '=', bare '=', a key without '=' - and no Path
+        lines = ['X-Origin=a=b', 'Comment=size=3;mode=0644', '==', '=', 'Path', 'DeletionDate', 'x=y=z=', '=Path=/home/u/w/nothing']
+        rng.shuffle(lines)
+        steps.append(['f', ip, '[Trash Info]\n%s\n%s' % ('\n'.join(lines[:rng.randint(1, 4)]),
+                                                       rng.choice(['', 'DeletionDate=2020-01-01T00:00:00\n'])), 0o600])
+        if rng.random() < 0.5:
+            steps.append(['f', fp, 'p', 0o644])
     elif kind == 'dir_in_info':
         steps.append(['d', tdir + '/info/' + nm, 0o700])
     elif kind == 'infodir_named_trashinfo':
